@@ -75,6 +75,19 @@ func (e *Eng) flatArgsX(st *State, args []Val, canon bool) (terms []string, sort
 			terms, sorts = append(terms, t...), append(sorts, s...)
 		case KUnit:
 		default:
+			if canon && a.K == KRef && a.GoT != nil {
+				// a struct VALUE is its contents, not the identity of the cell holding it
+				if su, ok := a.GoT.Underlying().(*types.Struct); ok && su.NumFields() <= 8 {
+					var fs []Val
+					for i := 0; i < su.NumFields(); i++ {
+						f := su.Field(i)
+						fs = append(fs, e.loadLoc(st, e.fieldBase(f, ownerName(a.GoT)), []string{a.T}, f.Type()))
+					}
+					t, s := e.flatArgsX(st, fs, canon)
+					terms, sorts = append(terms, t...), append(sorts, s...)
+					continue
+				}
+			}
 			terms = append(terms, a.T)
 			sorts = append(sorts, e.sortOfKind(a.K, a.GoT))
 		}
